@@ -62,7 +62,7 @@ func TestVerifC39Bin(t *testing.T) {
 		rec.Inconclusive("no restic binary (VERIF_RESTIC_BIN)")
 		return
 	}
-	n := env.Pick(4, 48)
+	n := env.Pick(4, 32)
 	for i := 0; i < n; i++ {
 		if !env.Mine(i) {
 			continue
